@@ -126,6 +126,20 @@ Theorem C05_append_moment_last : forall h m,
 Proof. exact history_append_moment_last. Qed.
 Print Assumptions C05_append_moment_last.
 
+(* ... and, generally, an insert / append after any history (a clear, a deletion, a batch edit ... in between) builds
+   the moments the same call builds on a freshly rebuilt equal circuit: the edit cannot see the circuit's past *)
+Theorem C05_insert_as_rebuilt : forall h i its s,
+  moms (run empty_circuit (h ++ [CInsert i its s])) =
+  moms (fst (insert (from_moments (moms (run empty_circuit h))) i its s)).
+Proof. exact history_insert_as_rebuilt. Qed.
+Print Assumptions C05_insert_as_rebuilt.
+
+Theorem C05_append_as_rebuilt : forall h its s,
+  moms (run empty_circuit (h ++ [CAppend its s])) =
+  moms (fst (append (from_moments (moms (run empty_circuit h))) its s)).
+Proof. exact history_append_as_rebuilt. Qed.
+Print Assumptions C05_append_as_rebuilt.
+
 (* D6 summaries_valid: after any history every lazily cached summary that is marked valid equals its
    recomputation from the moments (no exception can escape insert half-way, see C05_insert_never_raises) *)
 Theorem C05_summaries_valid : forall h, sums_ok (run empty_circuit h).
